@@ -226,6 +226,50 @@ def main(tier):
                                                           'file': open(os.path.join(h.tmp, 'b%d' % (i // 3), 'all.yaml'), errors='replace').read()},
                            'panic on a damaged input file')
                 break
+        # well-formed inputs in unusual combinations (the worlds of the other checks' generators: named ports declared under another
+        # protocol, Namespace objects missing, ANP/BANP next to NetworkPolicies, Services/Ingresses/Routes, exposure motifs): no command may panic
+        from . import c03, c06, c10
+        nw = 90 if tier == 'quick' else 1500
+        cmds, winfo = [], []
+        for i in range(nw):
+            g = i % 3
+            if g == 0:
+                W = gen.gen_world(run.rng, anp=True, pods=True)
+            elif g == 1:
+                W = c06.gen_case(run.rng)
+            else:
+                W = c10.gen_case(run.rng)[0]
+            for nsd in W['namespaces']:
+                if run.rng.random() < 0.4:
+                    nsd['obj'] = False
+            ms = [m for m, _ in gen.docs(W)] + [c10.manifest(o) for o in W.get('ingress_objs') or []]
+            run.rng.shuffle(ms)
+            d = h.dir_for('w%d' % i)
+            gen.write_dir(d, ms)
+            pods = c03.pod_names(W, True) or c03.pod_names(W, False)
+            ends = [('pod', wl, name) for name, wl in pods] + [('ip', a) for a in c03.boundary_ips(W, run.rng)[:3]]
+            qs = [(a, b_) for a in ends for b_ in ends if not (a[0] == 'ip' and b_[0] == 'ip')]
+            qs = run.rng.sample(qs, min(len(qs), 12))
+            qstr = lambda x: x[2] if x[0] == 'pod' else str(ipaddress.ip_address(x[1]))
+            ports = c03.boundary_ports(W, run.rng)
+            queries = [[qstr(a), qstr(b_), run.rng.choice(['tcp', 'UDP', 'sctp']), str(run.rng.choice(ports))] for a, b_ in qs]
+            cmds += [{'id': 'l', 'cmd': 'list', 'dir': d, 'want_out': True}, {'id': 'x', 'cmd': 'list', 'dir': d, 'exposure': True, 'format': run.rng.choice(['txt', 'dot', 'json']), 'want_out': True},
+                     {'id': 'd', 'cmd': 'diff', 'dir': d, 'dir2': seed_dir, 'want_out': True},
+                     {'id': 'e', 'cmd': 'eval', 'dir': d, 'mode': 'insert', 'queries': queries}, {'id': 'o', 'cmd': 'eval', 'dir': d, 'mode': 'objects', 'queries': queries}]
+            winfo.append((W, ms, queries))
+        outs = h.run(cmds, timeout=3000)
+        for i, (W, ms, queries) in enumerate(winfo):
+            run.count(1)
+            run.dist('worlds')
+            for name, o in zip(('list', 'list --exposure', 'diff', 'eval (InsertObject)', 'eval (objects)'), outs[5 * i: 5 * i + 5]):
+                panics = [o.get('err')] if o['outcome'] == 'panic' else [a for a in (o.get('answers') or []) if a.startswith('panic')]
+                if panics:
+                    hostips = [((m.get('status') or {}).get('hostIP')) for m in ms if isinstance(m, dict) and m.get('kind') == 'Pod']
+                    run.report(None, 'wpanic-%d' % i, {'kind': 'world', 'command': name, 'manifests': ms, 'queries': queries, 'panic': panics[0], 'world': W},
+                               '%s panics on a well-formed input' % name)
+                    break
+            if len(run.violations) >= 3:
+                break
         run.count(nb)
         run.sample({'mutant': {'kind': muts[0][4].get('kind'), 'path': list(muts[0][2]), 'value': 'DROP' if muts[0][3] == 'drop' else muts[0][3]}})
         run.cov['exhaustive'] = (tier != 'quick')
@@ -241,6 +285,18 @@ def replay(payload):
     h = listcorr.Harness()
     try:
         docs, admin = seeds()
+        if payload.get('kind') == 'world':
+            d = h.dir_for('r')
+            gen.write_dir(d, payload['manifests'])
+            outs = h.run([{'id': 'l', 'cmd': 'list', 'dir': d}, {'id': 'x', 'cmd': 'list', 'dir': d, 'exposure': True},
+                          {'id': 'e', 'cmd': 'eval', 'dir': d, 'mode': 'insert', 'queries': payload.get('queries') or []},
+                          {'id': 'o', 'cmd': 'eval', 'dir': d, 'mode': 'objects', 'queries': payload.get('queries') or []}])
+            run.count(1)
+            for o in outs:
+                if o['outcome'] == 'panic' or any(a.startswith('panic') for a in o.get('answers') or []):
+                    run.report(None, 'replay', payload, 'panic')
+                    break
+            return run.finish()
         m = payload['manifest']
         base = [m if (isinstance(m, dict) and d.get('kind') == m.get('kind') and d['metadata'].get('name') == (m.get('metadata') or {}).get('name')) else d for d in docs + admin]
         if m not in base:
